@@ -54,10 +54,11 @@ Record shapes := mkShapes {
   sh_setitem_default : flagarg;
   sh_setitem_slice_keep : keepset;
   sh_setitem_slice_copies_others : bool;    (* `a if a in keep else Atom(a)` *)
-  sh_setitem_slice_setlat : bool;           (* every stored atom gets self.lattice (filter(_fixlat, ...)) *)
+  sh_setitem_slice_setlat : bool;           (* every stored atom gets self.lattice *)
   sh_setitem_slice_nocopy_takes_value : bool;
   sh_setitem_scalar_dup : dupexpr;
-  sh_setitem_scalar_setlat_before_store : bool;
+  sh_setitem_scalar_store_before_setlat : bool;   (* list.__setitem__ first, .lattice only after it succeeded *)
+  sh_setitem_slice_store_before_setlat : bool;    (* the new atoms are materialised, stored, then re-linked *)
   (* arithmetic *)
   sh_add_copy_then_iadd : bool;
   sh_iadd_flag : flagarg;  sh_iadd_returns_self : bool;
@@ -115,7 +116,8 @@ Definition model_shapes : shapes := {|
   sh_setitem_slice_setlat := true;
   sh_setitem_slice_nocopy_takes_value := true;
   sh_setitem_scalar_dup := DCondCopy;
-  sh_setitem_scalar_setlat_before_store := true;
+  sh_setitem_scalar_store_before_setlat := true;  (* step (SetInt): an IndexError leaves the world unchanged *)
+  sh_setitem_slice_store_before_setlat := true;   (* step (SetSlice): a size mismatch leaves the world unchanged *)
   (* step (Add / IAdd / Sub / ISub / Mul / IMul) *)
   sh_add_copy_then_iadd := true;
   sh_iadd_flag := ATrue;  sh_iadd_returns_self := true;
